@@ -93,5 +93,32 @@ def main():
     sys.exit(1 if fails else 0)
 
 
+def main_nodes():
+    """out-of-service buses are no nodes of the graph, whatever nogobuses / notravbuses are given"""
+    import pandapower.topology as top
+    fails = []
+    net = pp.create_empty_network()
+    b = pp.create_buses(net, 7, 20.)
+    pp.create_ext_grid(net, b[0])
+    for f, t in zip(b[:-1], b[1:]):
+        pp.create_line_from_parameters(net, f, t, 1., 0.1, 0.1, 10., 0.4)
+    net.bus.at[b[3], "in_service"] = False
+    net.bus.at[b[5], "in_service"] = False
+    for nogo in (None, [b[1]], [b[1], b[6]], [b[0], b[1], b[2]]):
+        mg = top.create_nxgraph(net, nogobuses=nogo)
+        left = [x for x in (b[3], b[5]) if x in mg]
+        if left:
+            fails.append(f"nogobuses={nogo}: out-of-service buses {left} are nodes of the graph")
+        if nogo is not None and b[2] not in nogo:
+            comp = set(top.connected_component(mg, b[2]))
+            if comp & {b[3], b[4], b[5], b[6]}:
+                fails.append(f"nogobuses={nogo}: from bus {b[2]} the graph reaches {sorted(comp)} across the out-of-service bus {b[3]}")
+    for f in fails:
+        print("REPRODUCED:", f)
+    if not fails:
+        print("not reproduced: out-of-service buses are removed from the graph")
+    sys.exit(1 if fails else 0)
+
+
 if __name__ == "__main__":
     main()
